@@ -40,7 +40,7 @@ ASSUMPTIONS = [
     "a representable specification that the constructor refuses is not judged (the statement does not demand "
     "acceptance); it is counted and makes the run inconclusive",
     "not generated because the statement does not decide them: bool / numpy-integer / integer-valued float sizes, "
-    "Trough(virtual_rows=None), infinite max_volume, 2-D initial volumes of a transposed shape, 2-D initial volumes "
+    "Trough(virtual_rows=None), infinite min_volume, 2-D initial volumes of a transposed shape, 2-D initial volumes "
     "for Trough, names for virtual (non-row-A) wells of a Labware with virtual_rows, non-string names",
     "default component names are not judged (only that there is exactly one 100 % component per non-empty well and "
     "that user-given names are used verbatim)",
@@ -58,6 +58,7 @@ REJECT_RULE = {
     "iv_negative": "valueerror_for_negative_initial_volume",
     "iv_nan": "valueerror_for_nan_initial_volume",
     "iv_too_large": "valueerror_for_too_large_initial_volume",
+    "iv_infinite": "valueerror_for_infinite_initial_volume",
     "name_empty_well": "valueerror_for_name_of_empty_well",
     "name_unknown_well": "valueerror_for_name_of_unknown_well",
     "percolumn_wrong_length": "valueerror_for_percolumn_list_of_wrong_length",
@@ -165,7 +166,7 @@ def analyse(spec):
         raise Silent("non-numeric limit")
     elif math.isnan(mn) or math.isnan(mx):
         faults.append("limit_nan")
-    elif math.isinf(mx) or math.isinf(mn):
+    elif math.isinf(mn) or mx == -INF:
         raise Silent("infinite limit")
     elif mn < 0:
         faults.append("min_negative")
@@ -230,6 +231,8 @@ def analyse(spec):
             faults.append("iv_negative")
         if limits_ok and any(x > mx for x in flatv):
             faults.append("iv_too_large")
+        elif any(x == INF for x in flatv):
+            faults.append("iv_infinite")  # "finite initial volumes": no upper limit does not make an infinite filling representable
     # names
     names = {}
     if "names" in spec and spec["names"] is not None and vol is not None:
@@ -579,6 +582,9 @@ def _faulty(rng):
         _poke(rng, spec, vol, R, C, lambda x: NAN)
     elif fault == "iv_too_large":
         spec.pop("names", None)
+        if rng.random() < 0.12:
+            # "no upper limit": max_volume = inf is a limit above min_volume; an infinite filling is still not finite
+            spec["max_volume"] = mx = INF
         _poke(rng, spec, vol, R, C, lambda x: rng.choice([mx + 1, mx * 2 + 1, mx + 0.25, math.nextafter(float(mx), INF), INF, 1e12]))
     elif fault == "name_empty_well":
         # make sure there is an empty well and name it
